@@ -400,8 +400,11 @@ Print Assumptions C13_free_lock_is_taken.
      not cancelled / thrown into meanwhile); then t TAKES THE LOCK: acquire() returns True,
      lowner = Some t, locked (C13_take_lock_only_when_free);
    - otherwise (cancelled or interrupted waiter) the exception propagates, the finally clause
-     has removed the entry, the lock record is as before, and if the lock is free and still
-     has waiters one of them is done: the wake-up has been PASSED ON. *)
+     has removed the entry, owner and locked flag of the lock are as before, and if the lock
+     is free and still has waiters one of them is done: the wake-up has been PASSED ON.
+     (Since the repair of F16 the finally clause calls owning.propagate_priority when the lock
+     stays locked by another task: queue KEYS of this or other locks may be re-keyed; owner,
+     locked flag and the set of queued futures of every lock are not touched by that call.) *)
 Theorem C13_waiter_step :
   forall t exc s l f had rest k,
     Inv s -> WF4 s -> t < length (tasks s) -> tdone s t = false -> fdone s f = true ->
